@@ -643,6 +643,17 @@ func (ex *Exec) specCall(x ECall, env *SpecEnv) Val {
 			return Scalar{*ex.topRecovered, types.NewInterfaceType(nil, nil)}
 		}
 		return Scalar{NilIface, types.NewInterfaceType(nil, nil)}
+	case "mboxfull": // ghost: the one-slot mailbox channel holds a value
+		need(1)
+		return Scalar{Select(mboxFull(env.st), ex.scalar(argv(0))), boolT}
+	case "mbox": // ghost: the value held by the mailbox channel
+		need(1)
+		cv := argv(0)
+		ct, ok := under(cv.GoType()).(*types.Chan)
+		if !ok {
+			ex.specFail("mbox() takes a channel")
+		}
+		return ex.mboxGet(ex.scalar(cv), ct.Elem(), env.st)
 	case "funcis": // the function value is (statically) the named function
 		need(2)
 		fv, ok := argv(0).(FuncV)
